@@ -443,6 +443,14 @@ func (w *srvWorld) checkPublic(m *srvModel) (sig, what string) {
 		if !refVerify(w.Srv.Pub, rep.Signed, rep.Sig) {
 			return "public/sync-signature", fmt.Sprintf("sync reply for id %d does not verify under the server key", id)
 		}
+		// the rest of the reply: the migration order of this device, or the current server list
+		wantRest := refReply{Servers: m.Servers}
+		if mg, ok := m.Migrations[pk]; ok {
+			wantRest = refReply{NewGCA: mg.NewGCA, NewID: mg.NewShortID, Servers: mg.NewServers, MigSig: mg.Signature}
+		}
+		if wb := wantRest.body(); !bytes.Equal(rep.Rest, wb[540:len(wb)-8]) {
+			return "public/sync-list-or-migration", fmt.Sprintf("sync for id %d: the list / migration part of the reply (%d bytes) is not the reference encoding of what the server holds (%d bytes)", id, len(rep.Rest), len(wb)-548)
+		}
 		for i := 0; i < mWindow; i++ {
 			bit := rep.Bitfield[i/8]&(1<<(i%8)) != 0
 			want := m.Slots[id][m.Offset+uint32(i)].value() > 0
@@ -556,4 +564,29 @@ func pageTearPhantom(dir string) map[string]int64 {
 		}
 	}
 	return out
+}
+
+// touch makes the requests whose answers an implementation might be tempted to remember: a sync request per live
+// device and the server list. Called after every operation of a history so that anything cached is cached in
+// every intermediate state, not only in the final one.
+func (w *srvWorld) touch(m *srvModel) (sig, what string) {
+	for id, ea := range m.Devices {
+		var raw []byte
+		if p := safely(func() { raw, _ = w.syncRaw(idBytes(id)) }); p != "" {
+			continue // panics are the business of the full comparison
+		}
+		// the list / migration part is compared on the spot: the deep comparison only sees one history per state
+		if rep, err := parseSyncReply(raw); err == nil && !rep.Refused {
+			wantRest := refReply{Servers: m.Servers}
+			if mg, ok := m.Migrations[ea.PublicKey]; ok {
+				wantRest = refReply{NewGCA: mg.NewGCA, NewID: mg.NewShortID, Servers: mg.NewServers, MigSig: mg.Signature}
+			}
+			if wb := wantRest.body(); !bytes.Equal(rep.Rest, wb[540:len(wb)-8]) && sig == "" {
+				sig, what = "sync-list-or-migration-differs", fmt.Sprintf("sync for id %d: the list / migration part of the reply is not the reference encoding of what the server holds", id)
+			}
+		}
+	}
+	safely(func() { w.httpDo("GET", "/api/v1/authorized-servers", nil) })
+	safely(func() { w.httpDo("GET", "/api/v1/equipment", nil) })
+	return
 }
